@@ -76,8 +76,9 @@ type lane struct {
 	lockOwners []*lockOwner
 	issued     int
 	maxOps     int
-	retx       bool // about to retransmit after a lost reply
-	gidx       int  // global lane index (byte ranges of locks are disjoint per lane)
+	retx       bool     // about to retransmit after a lost reply
+	cur        *request // request being sent (until its reply was accepted)
+	gidx       int      // global lane index (byte ranges of locks are disjoint per lane)
 }
 
 type owner struct {
@@ -189,6 +190,7 @@ func (c *client) dropState() {
 		}
 	}
 	c.epoch++
+	c.w.modelVersion++
 	// A new record starts from a clean slate (see invalidateUnanswered).
 	c.uncertain = false
 }
@@ -500,6 +502,7 @@ func (w *world) onStart(d *delivery) {
 			c.csLatest = req.id
 		}
 	}
+	d.verStart = w.modelVersion
 	if req.kind == kIO {
 		d.ioStart = w.ioExpectation(req)
 	}
@@ -688,7 +691,8 @@ func (w *world) compareDup(req *request, d *delivery) {
 	case c.minor == 1 && !req.cache && req.kind != kCreateSession && isUncachedReplay(can, d):
 		w.k.Probe("uncached-replay-answered-RETRY_UNCACHED_REP")
 		return
-	case c.minor == 0 && !transactionCompletes(canLast) && d.res.Status != nfsv4.NFS4_OK:
+	case c.minor == 0 && (len(can.res.Resarray)-1 < req.seqOpIdx || !transactionCompletes(canLast)) && d.res.Status != nfsv4.NFS4_OK:
+		// (the first copy failed before or without the server caching anything)
 		w.k.Probe("retransmission-of-uncached-failure")
 		return
 	}
@@ -982,7 +986,9 @@ func (w *world) applyIO(req *request, d *delivery) {
 	// the state, which need not be the sender; the model does not count on
 	// it.)
 	end := w.ioExpectation(req)
-	if !d.ioStart.known || !end.known || d.ioStart.key() != end.key() || d.clEpoch != c.epoch {
+	if !d.ioStart.known || !end.known || d.ioStart.key() != end.key() || d.clEpoch != c.epoch || d.verStart != w.modelVersion {
+		// (the last condition: state was created and removed again, or
+		// downgraded and upgraded again, while this request was under way)
 		w.k.Probe("io-unpredictable")
 		return
 	}
